@@ -24,40 +24,42 @@ def _distinct_switches(f):
     return sorted(set(res))
 
 
+def _is_distinct_flag(a):
+    """the path fact reads the bool field of a SELECT / aggregate statement (its DISTINCT flag)"""
+    if a.get("kind") != "place":
+        return False
+    fe = [e for e in a["place"]["p"] if isinstance(e, dict) and "f" in e]
+    return bool(fe) and fe[-1].get("ty") == "bool" and re.search(r"model::(SelectStatement|AggregateStatement)$", fe[-1].get("adt") or "") is not None
+
+
 def _emission_guarded(R, rid, f, emit_calls, key):
-    """every path from function entry to an emission passes the distinct==false edge or the add()==true edge"""
-    sws = _distinct_switches(f)
+    """on every path to an emission either `distinct == false` holds or `DistinctValues::add(..) == true` (path facts; any spelling:
+    nested ifs, `!distinct || add(..)`, a predicate helper, early returns)"""
     adds = PR.calls_matching(f, ADD)
-    if not sws or len(adds) != 1:
-        R.violation(rid, key + "|no-distinct-test", "%s does not test the statement's DISTINCT flag and call DistinctValues::add exactly once "
-                                                     "(%d tests, %d add calls)" % (f.path, len(sws), len(adds)), [f.loc()])
+    if len(adds) != 1:
+        R.violation(rid, key + "|no-distinct-test", "%s does not call DistinctValues::add exactly once (%d add calls)" % (f.path, len(adds)),
+                    [f.loc()])
         return None
     add = adds[0]
-    g = PR.bool_guard(f, add)
-    if g is None:
-        R.violation(rid, key + "|add-unbranched", "the result of DistinctValues::add is not branched on in %s" % f.path, [add.loc()])
+    fa = PR.facts(f)
+    if not fa.ok:
+        R.violation(rid, key + "|unanalysable", "%s: too many paths to establish the DISTINCT guard" % f.path, [f.loc()])
         return None
-    cut = set()
-    for sw in sws:
-        t = f.blocks[sw]["term"]
-        zero = [b for v, b in t["targets"] if v == "0"]
-        if zero:
-            cut.add((sw, zero[0]))          # distinct == false
-    cut.add((g[0], g[1]))                    # add(..) == true
-    # the add call itself must sit on the distinct==true edge
+
+    def passes(a, val):
+        if _is_distinct_flag(a) and val is False:
+            return True
+        if a.get("kind") == "call" and a.get("call") is add and val is True:
+            return True
+        return False
     ok = True
     for e in emit_calls:
-        if e.bb in f.reachable_from(0, avoid_edges=cut):
+        if not fa.every_path(e.bb, passes):
             ok = False
             R.violation(rid, key + "|unguarded-emission",
-                        "%s: a result row can be emitted on a path that passes neither `distinct == false` nor `DistinctValues::add(..) == true` "
-                        "(DISTINCT is skipped on that path)" % f.path, [e.loc()])
-    # false result of add: no emission reachable without looping back
-    after_false = f.reachable_from(g[2], avoid={h for h in f.loops()})
-    for e in emit_calls:
-        if e.bb in after_false:
-            ok = False
-            R.violation(rid, key + "|duplicate-emitted", "%s: the row is emitted although DistinctValues::add reported a duplicate" % f.path, [e.loc()])
+                        "%s: a result row can be emitted on a path on which neither `distinct == false` nor `DistinctValues::add(..) == true` "
+                        "holds (DISTINCT is skipped, or a reported duplicate is emitted)" % f.path, [e.loc()])
+    # the set is consulted only for DISTINCT statements (add() on a non-DISTINCT path would be harmless but its result must not matter)
     return add if ok else None
 
 
@@ -69,7 +71,8 @@ def run(R):
                       "to one result table")
     R.rule("C08.set", "DistinctValues::add is contains-then-insert on one set of whole value tuples and returns `!contains`")
     # ---- select
-    f = R.need_fn(SEL)
+    KEEP = r"DistinctValues::|aggregate_execution::accept_group$|ExpressionExecutionEngine::|data_model::Row::new$|extract_result_rows_by_column$"
+    f = PR.view(P, R.need_fn(SEL), keep=KEEP)
     rows = PR.calls_matching(f, r"^sqlgrep::data_model::Row::new$")
     add = _emission_guarded(R, "C08.select", f, rows, "select")
     if add is not None and rows:
@@ -88,7 +91,7 @@ def run(R):
             R.violation("C08.select", "select|other-tuple", "DistinctValues::add is applied to a different value than the row that is emitted",
                         [add.loc()])
     # ---- aggregate
-    f = R.need_fn(AGG)
+    f = PR.view(P, R.need_fn(AGG), keep=KEEP)
     pushes = [c for c in PR.calls_matching(f, r"^alloc::vec::Vec::push$")
               if (c.func.get("res_targs") or c.targs)[:1] == ["sqlgrep::data_model::Row"]]
     if not pushes:
